@@ -180,7 +180,7 @@ def _arena_pipeline(tier, focus, variants, key):
         raise ToolError("TLC saw %d records, replayer wrote %d" % (checked, stats["lines"]))
     bad = {p: tagged_index_sets(results, parts, "BAD_" + p) for p in ARENA_PROPS}
     drift = tagged_index_sets(results, parts, "DRIFT")
-    counters = {k: tagged_int(results, k) for k in ("N_EXIT", "N_REALLOC", "N_NEWCHUNK", "N_RECLAIM", "N_FAIL", "N_CLAIMED_OP", "N_ALIGNED", "N_REUSE", "N_PREP", "N_COMMIT", "N_PARTS")}
+    counters = {k: tagged_int(results, k) for k in ("N_EXIT", "N_REALLOC", "N_NEWCHUNK", "N_RECLAIM", "N_FAIL", "N_CLAIMED_OP", "N_ALIGNED", "N_REUSE", "N_PREP", "N_COMMIT", "N_PARTS", "N_AGAIN")}
     shutil.rmtree(d, ignore_errors=True)
     mc.out = mc.out[-4000:]
     return {"wd": wd, "beh": beh, "obs": obs, "mc": mc, "nsim": nsim, "stats": stats, "crashes": crashes, "bad": bad,
@@ -224,6 +224,15 @@ def check_arena_property(pid, tier, focus="general"):
                                 "how": "the replayer process was killed while executing this step of the behaviour"})
     elif P["crashes"]:
         log("note: %d behaviours crashed the replayer (reported by the C01/C02 checks)" % len(P["crashes"]))
+    extra_cov = {}
+    if pid == "C03":
+        # liveness clause: a fixed workload in a reset() loop eventually stops requesting chunks (weak fairness, no constraint)
+        lv = tlc("MC_ResetLoop", "MC_ResetLoop.cfg", workers=8, timeout=1500, xmx="4g")
+        if lv.error and "Temporal properties were violated" in lv.out:
+            raise ToolError("MC_ResetLoop: the model violates <>[]quiet:\n" + lv.out[-3000:])
+        require_ok(lv, "MC_ResetLoop")
+        extra_cov = {"reset_loop_liveness": {"property": "<>[]quiet under WF(Round)", "states": lv.distinct, "transitions": lv.generated,
+                                             "depth": lv.depth}}
     if P["drift"]:
         dr = nth_lines(P["obs"], [P["drift"][0][2]])
         log("MODEL-DRIFT %s: %d steps differ from the model's exact prediction, e.g. %s" %
@@ -239,6 +248,7 @@ def check_arena_property(pid, tier, focus="general"):
         "steps_checked": P["checked"], "model_drift_steps": len(P["drift"]), "replayer_crashes": len(P["crashes"]),
         "behaviours_emitted": P["nsim"], "behaviours_skipped_not_compiled": P["stats"]["skipped"],
         "entry_point_variants": P["variants"].split(","), "counters": P["counters"],
+        **extra_cov,
         "mc_depth": P["mc"].depth, "pipeline_wall_s": round(P["wall"], 1), "pipeline_result_reused_from_cache": P.get("cached", False),
         "explanation": "TLC model-checks Arena.tla against the contract invariants (states/transitions), emits random behaviours "
                        "of the model, harness/replay executes each on the real allocator with a specified deterministic base "
